@@ -74,7 +74,7 @@ QUERIES = TIMEQ + ['val2idx_nearest', 'val2idx_bounds', 'val2idx_exact', 'repr',
            'eval_selfvar', 'pncexpr_ifilevar', 'slice_maskedidx',
            # unary operations on masked variables (numpy hands the operand's mask on to the result); merge of several files;
            # a window of an IOAPI file whose grid origin is held as arrays
-           'eval_unary_mask', 'pncexpr_unary_mask', 'merge_views', 'ioapi_origarr', 'slice_dim_full', 'getTimes_noleap']
+           'eval_unary_mask', 'pncexpr_unary_mask', 'merge_views', 'ioapi_origarr', 'slice_dim_full', 'getTimes_noleap', 'reduce_len1']
 
 
 def _pure(rng):
@@ -129,7 +129,7 @@ def gen(rng, tier):
     for q in ('slice_dim', 'slice_dim_range', 'getvarpnc', 'pncrename', 'interpvars', 'extract_lonlat', 'eval_tuple', 'pncexpr_tuple',
               'eval_attrarr', 'pncexpr_attrarr', 'pncexpr_del', 'pncexpr_rename', 'eval_aug', 'pncexpr_aug', 'eval_selfvar',
               'pncexpr_ifilevar', 'slice_maskedidx', 'eval_unary_mask', 'pncexpr_unary_mask', 'merge_views', 'ioapi_origarr', 'slice_dim_full',
-              'getTimes_noleap', 'getTimes_noleap'):
+              'getTimes_noleap', 'getTimes_noleap', 'reduce_len1'):
         spec = pfile.gen_file(rng, maxlen=3, coord_prob=1.0, scalar_prob=0.0)
         for v in spec['vars']:
             if v['dtype'] == 'f':
@@ -416,6 +416,26 @@ def _query(f, q, spec):
             d = _diffsnap(before, _snap(h))
             if d:
                 raise lib.HarnessError('ARGCHANGED writing into the result of %s changed the input: %s' % (ex, d))
+        return None
+    if q == 'reduce_len1':
+        # a file of its own with a single time step and a single layer: the reduction of one element is a new array all the same
+        from PseudoNetCDF.core._functions import reduce_dim
+        for fn in ('mean', 'sum', 'min', 'max'):
+            h = pnc.PseudoNetCDFFile()
+            h.createDimension('t', 1)
+            h.createDimension('x', 3)
+            a = h.createVariable('A', 'd', ('t', 'x'))
+            a[:] = [[3., 1., 2.]]
+            m = h.createVariable('M', 'd', ('t', 'x'), fill_value=-999.)
+            m[:] = np.ma.masked_equal([[3., -999., 2.]], -999.)
+            before = _snap(h)
+            g = reduce_dim(h, 't,%s' % fn)
+            for k in ('A', 'M'):
+                g.variables[k][0, 0] = 100.
+                g.variables[k][0, 2] = np.ma.masked if k == 'M' else -1.
+            d = _diffsnap(before, _snap(h))
+            if d:
+                raise lib.HarnessError("ARGCHANGED writing into the result of reduce_dim(f, 't,%s') (one time step) changed the input: %s" % (fn, d))
         return None
     if q == 'merge_views':
         hs = []
